@@ -87,6 +87,11 @@ impl<T: Clone + TTOverwriteable> TranspositionTable<T> {
     }
 
     pub fn insert(&mut self, key: &ZobristHash, data: T) {
+        // A table of size 0 (the smallest advertised 'Hash' value) has no slots to store into
+        if self.data.is_empty() {
+            return;
+        }
+
         let idx = self.get_entry_idx(key);
 
         // !: We know the exact size of the table and will always access within the bounds.
@@ -110,6 +115,10 @@ impl<T: Clone + TTOverwriteable> TranspositionTable<T> {
     }
 
     pub fn get(&self, key: &ZobristHash) -> Option<&T> {
+        if self.data.is_empty() {
+            return None;
+        }
+
         let idx = self.get_entry_idx(key);
 
         // !: We know the exact size of the table and will always access within the bounds.
